@@ -219,6 +219,25 @@ def dataflow(vc, region):
             None if ok2 else {"class": "prange body writes a scalar that is read after the loop",
                               "violations": viol}
         res["private_scalars"] = sorted(tracked | {node.target.id})
+        # arrays written in the loop must not additionally be handed to helpers as plain inputs
+        # (helper reads are not element-tracked)
+        _, warrs = vc.loop_mods(body)
+        bad = []
+        for c in ast.walk(ast.Module(body=list(body), type_ignores=[])):
+            if isinstance(c, ast.Call) and isinstance(c.func, ast.Name) and \
+                    (c.func.id in vc.low.funcs or vc.fi.ctype(c.func.id) is not None):
+                for a in c.args:
+                    nm = a.id if isinstance(a, ast.Name) else (
+                        a.value.id if isinstance(a, ast.Subscript) and isinstance(a.value, ast.Name)
+                        and any(isinstance(x, ast.Slice) for x in
+                                (a.slice.elts if isinstance(a.slice, ast.Tuple) else [a.slice])) else None)
+                    if nm in warrs:
+                        bad.append({"line": c.lineno, "array": nm, "call": c.func.id})
+        okh = not bad
+        vc.static("par.%s.helper_args" % key, "par", okh,
+                  "no array written in the parallel body is passed to a helper" if okh else
+                  "array written in the parallel body is passed to a helper: %s" % bad).witness = \
+            None if okh else {"class": "written array passed to helper inside prange", "violations": bad}
     else:
         viol = []
         pr = []
